@@ -232,8 +232,8 @@ func (w *World) doAdmin(t *Task) {
 	tp := w.T
 	tp.Begin("admin")
 	defer tp.End()
-	kind := tp.Pick("adminkind", 9)
-	name := [...]string{"flow_deleted", "node_dropped", "wait_dropped", "exit_retargeted", "actions_dropped", "flow_type_changed", "asset_deleted", "definition_corrupted", "transient_source_error"}[kind]
+	kind := tp.Pick("adminkind", 10)
+	name := [...]string{"flow_deleted", "node_dropped", "wait_dropped", "exit_retargeted", "actions_dropped", "flow_type_changed", "asset_deleted", "definition_corrupted", "transient_source_error", "translations_edited"}[kind]
 	if kind == 8 {
 		w.Store.TransientErr = 1 + tp.Pick("nerrors", 2)
 		w.fault(name)
@@ -265,6 +265,28 @@ func (w *World) doAdmin(t *Task) {
 			}
 			var def gen.J
 			if json.Unmarshal(f.def, &def) != nil {
+				return fl
+			}
+			if kind == 9 {
+				// a new revision with edited translations: a language dropped, or one item emptied
+				loc, _ := def["localization"].(gen.J)
+				langs := gen.SortedKeys(loc)
+				if len(langs) > 0 {
+					l := langs[tp.Pick("trlang", len(langs))]
+					if tp.Chance("droplang", 1, 2) {
+						delete(loc, l)
+					} else if items, _ := loc[l].(gen.J); len(items) > 0 {
+						ik := gen.SortedKeys(items)
+						it, _ := items[ik[tp.Pick("tritem", len(ik))]].(gen.J)
+						for _, pk := range gen.SortedKeys(it) {
+							it[pk] = []any{[]any{}, []any{""}}[tp.Pick("trempty", 2)]
+						}
+					}
+				}
+				if rv, ok := def["revision"].(float64); ok {
+					def["revision"] = rv + 1
+				}
+				f.def, _ = json.Marshal(def)
 				return fl
 			}
 			nodes, _ := def["nodes"].([]any)
